@@ -57,6 +57,9 @@ def trees(tier):
                 out.append(("B", op, a, b))
             out.append(("B", op, a, ("L", "2")))
             out.append(("B", op, ("L", "x"), a))
+    # long integer literals (ids, nanosecond time stamps) are exact in Python
+    for big in ("9007199254740993", "1700000000123456789", "123456789012345678901"):
+        out += [("B", "-", ("L", "x"), ("L", big)), ("B", "+", ("L", big), ("L", "z")), ("B", "==", ("L", "x"), ("L", big)), ("B", "*", ("U", "-", ("L", big)), ("L", "x"))]
     if tier != "quick":
         for op1 in arith:
             for op2 in arith:
